@@ -72,15 +72,6 @@ fn agree(writer: &str, model: &str, imp: &str, case: &Case) -> Option<String> {
         return Some(format!("{} figures groups in the model answer, {} in the report", m.len(), i.len()));
     }
     let tol = tol_of(writer, case.precision);
-    // html: `J=n/d` is the exact global line percentage; the badge may be one below the model's
-    // only when that percentage is a whole number that the f64 computation just misses
-    let whole_pct = m
-        .iter()
-        .find_map(|t| t.strip_prefix("J="))
-        .and_then(|r| r.split_once('/'))
-        .map(|(n, d)| (n.parse::<u128>().unwrap_or(1), d.parse::<u128>().unwrap_or(0)))
-        .map(|(n, d)| d != 0 && n % d == 0)
-        .unwrap_or(false);
     for (mt, it) in m.iter().zip(i.iter()) {
         let (ma, ia) = (atoms(mt), atoms(it));
         if ma.len() != ia.len() {
@@ -102,15 +93,6 @@ fn agree(writer: &str, model: &str, imp: &str, case: &Case) -> Option<String> {
                     return Some(format!("rate: model {} vs printed {:?} in {:?} / {:?}", x, printed, mt, it));
                 }
             } else if x != y {
-                // the badge truncates a float: 100·c/t computed in f64 may fall just below an
-                // integer that the exact value reaches
-                if mt.starts_with("B=") {
-                    if let (Ok(a), Ok(b)) = (x.parse::<u64>(), y.parse::<u64>()) {
-                        if b + 1 == a && whole_pct {
-                            continue;
-                        }
-                    }
-                }
                 return Some(format!("model {:?} vs report {:?}", mt, it));
             }
         }
